@@ -1574,6 +1574,11 @@ class C26(HistoryProfile):
         raise vio(sim, "rejection-left-trace", "; ".join(d[:3]))
       if model is not None:
         sim.count("probe.valid_bundle_rejected")
+        if "unknown temporary row id" in str(out.error):
+          # every negative id in this bundle was created by an earlier action of it (or by the
+          # action itself): refusing it says that a temporary id did not stand for its row
+          raise vio(sim, "known-temp-id-rejected", "%s raised %s" % (
+            json.dumps(ev["a"], default=repr)[:400], str(out.error)[:200]))
       return out
     if model is None:
       return out
